@@ -701,6 +701,8 @@ class Interp:
         if not isinstance(m, MutexV):
             raise ModelError('guard of non-mutex %r' % (m,))
         wr(g.ref, MutexV(m.data, None, m.poisoned or bool(cleanup)))
+        if self.sched is not None:
+            self.sched.released(g.ref)
 
     def run_body(self, body, args):
         blocks = body.blocks
